@@ -1,6 +1,6 @@
 (** C04 — every value is destructed exactly once and all memory is returned. *)
-From GA Require Import Model.Spec Proofs.Inv Proofs.InvSweep Proofs.Once Proofs.InvWorld Proofs.Safety
-     Proofs.Life Proofs.LifeCollect Proofs.Lifetime.
+From GA Require Import Model.Spec Model.Pointer Proofs.Inv Proofs.InvSweep Proofs.Once Proofs.InvWorld Proofs.Safety
+     Proofs.Life Proofs.LifeCollect Proofs.Lifetime Proofs.Pointer.
 Local Open Scope nat_scope.
 
 (** Dropping the arena of any reachable world, in whatever phase it is and with shells present:
@@ -83,3 +83,63 @@ Example C04_nonvacuous :
 Proof. vm_compute. reflexivity. Qed.
 
 (** The "exact layout" clause is C17's; payload destructors that panic are outside the model. *)
+
+
+(** ** Pointer level. The theorems above see the list of all objects as a Coq list; the implementation
+    threads it through the [next] field of every header and the three pointers [all] / [sweep] /
+    [sweep_prev]. Model/Pointer.v models that pointer surgery; here: each pointer operation implements
+    the list operation of the model above, for every list ([Rep]: following [next] from [all] visits
+    exactly [pre ++ unsw], once each, and ends at null; [sweep] = head of the unswept part,
+    [sweep_prev] = last of the swept part while sweeping, both null otherwise). So an object is never
+    lost from, or visited twice on, the list that the sweep and [Drop for Context] walk. *)
+Theorem C04_pointer_link :
+  forall c o p, Inv None c -> Rep (sweeping c) p (pre c) (unsw c) ->
+    Rep (sweeping (fst (link c o))) (plink (sweeping c) p (snd (link c o)))
+        (pre (fst (link c o))) (unsw (fst (link c o))).
+Proof. exact link_refines. Qed.
+Print Assumptions C04_pointer_link.
+
+Theorem C04_pointer_enter_sweep :
+  forall c p, Rep false p (pre c) (unsw c) ->
+    Rep true (penter_sweep p) (pre (set_lists (set_ph c Sweep) [] (all c))) (unsw (set_lists (set_ph c Sweep) [] (all c))).
+Proof. exact enter_sweep_refines. Qed.
+Print Assumptions C04_pointer_enter_sweep.
+
+Theorem C04_pointer_sweep_one :
+  forall c p c' evs r, Inv None c -> ph c = Sweep -> Rep true p (pre c) (unsw c) -> sweep_one c = (c', evs, r) ->
+    let p' := fst (psweep_one (arm_in c) p) in
+    match r with
+    | SContinue => Rep true p' (pre c') (unsw c')
+    | SBreak => Rep false p' (pre c') (unsw c') /\ unsw c' = []
+    end.
+Proof. exact sweep_one_refines. Qed.
+Print Assumptions C04_pointer_sweep_one.
+
+(** [Drop for Context] follows [next] from [all]: it meets exactly the objects of the list, each once *)
+Theorem C04_pointer_drop_all_walk :
+  forall sw c p, Rep sw p (pre c) (unsw c) -> pwalk (length (all c)) (nxt p) (p_all p) = all c.
+Proof. exact drop_all_walk. Qed.
+Print Assumptions C04_pointer_drop_all_walk.
+
+(** any history of links, Mark -> Sweep transitions and sweep steps (with any arms): the pointer level
+    tracks the list level *)
+Theorem C04_pointer_any_history :
+  forall evs sw p pre unsw, Rep sw p pre unsw -> lrun_ok (sw, pre, unsw) evs ->
+    let '(sw1, pre1, unsw1) := fold_left lstep evs (sw, pre, unsw) in
+    let '(sw2, p2) := fold_left pstep evs (sw, p) in
+    sw2 = sw1 /\ Rep sw1 p2 pre1 unsw1.
+Proof. exact psteps_rep. Qed.
+Print Assumptions C04_pointer_any_history.
+
+(** non-vacuity: three objects, sweep begins, the head is kept, an object is born mid-sweep, the next
+    object is unlinked through [sweep_prev], the last is kept, the sweep ends *)
+Example C04_pointer_history_example :
+  let evs := [LLink 0; LLink 1; LLink 2; LEnter; LSweep PKeep; LLink 3; LSweep PFree; LSweep PKeep; LSweep PKeep] in
+  Rep false pl_new [] [] /\ lrun_ok (false, [], []) evs
+  /\ fold_left lstep evs (false, [], []) = (false, [3; 2; 0], [])
+  /\ let p2 := snd (fold_left pstep evs (false, pl_new)) in
+     pwalk 5 (nxt p2) (p_all p2) = [3; 2; 0] /\ p_sweep p2 = None /\ p_prev p2 = None.
+Proof.
+  cbn zeta. split; [exact rep_new|]. split; [|split; [reflexivity|vm_compute; auto]].
+  cbn. repeat split; try discriminate; try tauto; intros H; repeat (destruct H as [H|H]; try discriminate H); try contradiction.
+Qed.
